@@ -84,13 +84,17 @@ def td_proposal(cfg):
         tds = [P.BoundedNormal([c], {c: (0., 4.)}, cov=[1.5], **slow) for c in comps]
     else:
         tds = [P.ATAdaptiveNormal([c], adaptation_duration=T, **aslow) for c in comps]
+    shared = cfg.get('mixseed', 0) % 2 == 1        # one dictionary naming every component, handed to each component's birth
     if cfg['birth'] == 'uniform':
         lo_b, hi_b = cfg.get('birth_bounds', (0., 4.))       # may be narrower than the prior support (0, 4)
-        births = [P.UniformBirth([c], {c: (lo_b, hi_b)}) for c in comps]
+        every = {c: (lo_b, hi_b) for c in comps}
+        births = [P.UniformBirth([c], every if shared else {c: (lo_b, hi_b)}) for c in comps]
     elif cfg['birth'] == 'normal':
-        births = [P.NormalBirth([c], {c: 1.0}, {c: 1.0}) for c in comps]
+        mus, sds = {c: 1.0 for c in comps}, {c: 1.0 for c in comps}
+        births = [P.NormalBirth([c], mus if shared else {c: 1.0}, sds if shared else {c: 1.0}) for c in comps]
     else:
-        births = [P.LogNormalBirth([c], {c: 0.3}, {c: 0.6}) for c in comps]
+        mus, sds = {c: 0.3 for c in comps}, {c: 0.6 for c in comps}
+        births = [P.LogNormalBirth([c], mus if shared else {c: 0.3}, sds if shared else {c: 0.6}) for c in comps]
     # index bounds may be given as non-integers: "the floor (ceil) of the lower (upper) bound will be used" - the same range 0..n
     kb = (0.5, n - 0.5) if cfg.get('k_bounds_frac') else (0, n)
     mp = P.BoundedDiscrete(['k'], boundaries={'k': kb}, successive={'k': cfg['successive']})
